@@ -1248,6 +1248,11 @@ func (f *File) readAt(b []byte, off int64) (int, error) {
 		return 0, os.ErrClosed
 	}
 
+	if off > math.MaxInt64-int64(len(b)) {
+		// the offsets of the chunks would wrap around
+		return 0, os.ErrInvalid
+	}
+
 	if len(b) <= f.c.maxPacket {
 		// This should be able to be serviced with 1/2 requests.
 		// So, just do it directly.
@@ -1857,6 +1862,11 @@ func (f *File) WriteAt(b []byte, off int64) (written int, err error) {
 // writeAt must be called while holding either the Read or Write mutex in File.
 // This code is concurrent safe with itself, but not with Close.
 func (f *File) writeAt(b []byte, off int64) (written int, err error) {
+	if off > math.MaxInt64-int64(len(b)) {
+		// the offsets of the chunks would wrap around
+		return 0, os.ErrInvalid
+	}
+
 	if len(b) <= f.c.maxPacket {
 		// We can do this in one write.
 		return f.writeChunkAt(nil, b, off)
@@ -1946,6 +1956,12 @@ func (f *File) readFromWithConcurrency(r io.Reader, concurrency int) (read int64
 		for {
 			// Fill the entire buffer.
 			n, err := readFull(r, b)
+
+			if n > 0 && off > math.MaxInt64-int64(n) {
+				// the offset of the next chunk would wrap around
+				errCh <- rwErr{off, os.ErrInvalid}
+				return
+			}
 
 			if n > 0 {
 				read += int64(n)
